@@ -562,7 +562,24 @@ func buildVariants(mode string, w *World, h *History, base *Transcript, r *rand.
 				half[k] = true
 			}
 		}
-		return []*Variant{{Name: "without-failed", SkipFailed: skip}, {Name: "without-half-of-failed", SkipFailed: half}}
+		vs := []*Variant{{Name: "without-failed", SkipFailed: skip}, {Name: "without-half-of-failed", SkipFailed: half}}
+		// directed histories: each failed transaction left out ALONE as well — when two refused transactions follow
+		// each other, leaving both out hides what the first one left behind for the second (an in-memory selector,
+		// a cached lookup): the second must be refused with or without the first
+		if h.Name != "" {
+			ks := [][2]int{}
+			for k := range skip {
+				ks = append(ks, k)
+			}
+			sort.Slice(ks, func(a, b int) bool { return ks[a][0] < ks[b][0] || (ks[a][0] == ks[b][0] && ks[a][1] < ks[b][1]) })
+			for n, k := range ks {
+				if n >= 60 {
+					break
+				}
+				vs = append(vs, &Variant{Name: fmt.Sprintf("without-failed-b%d-t%d", k[0]+1, k[1]), SkipFailed: map[[2]int]bool{k: true}})
+			}
+		}
+		return vs
 	case "c07":
 		all := [][]byte{}
 		for _, b := range h.Blocks {
